@@ -618,7 +618,7 @@ int main(void)
   for (int i = 0; i < NKEYS; ++i) {
     keys[i] = i;
   }
-  snprintf(scratch, sizeof(scratch), "/tmp/zixv-c07-XXXXXX");
+  snprintf(scratch, sizeof(scratch), "%s/zixv-c07-XXXXXX", getenv("VERIF_SCRATCH") ? getenv("VERIF_SCRATCH") : "/tmp");
   if (!mkdtemp(scratch)) {
     return 3;
   }
